@@ -16,6 +16,12 @@ What is translated (Python ast, a small fixed subset, everything else refused):
   * truthy, KNOWN_PROXY_HEADERS, a few class defaults
   * the middleware install condition in server.py  -> middleware_installed
   * option names documented in docs/arguments.rst and in runner.HELP
+  * the header kinds named in the trusted_proxy_headers entries of docs/arguments.rst,
+    runner.HELP and docs/runner.rst                -> docs_/help_/runner_rst_proxy_headers
+  * the class-level defaults of every adjustment  -> class_defaults
+  * every default stated in docs/arguments.rst, runner.HELP, docs/runner.rst
+    (Default: ``X``, default is 'X', Default is N, On/Off by default, ...; conditional
+    ones -- "if trusted_proxy is set, the default is" -- are skipped) -> *_defaults
 
 Fail closed: a construct outside the subset makes the item be emitted as a
 comment `(* ABSENT name: reason *)`, so every theorem that depends on it stops
@@ -936,6 +942,182 @@ def gen_help():
             "Definition help_opts : list (list N * bool * bool) :=\n  [%s]." % body]
 
 
+# -- documented header kinds and documented defaults ---------------------------------
+
+def rst_entries(path, term_re):
+    """definition-list entries of an .rst file: [(term match, [body lines])]"""
+    lines = open(path, encoding="utf-8").read().split("\n")
+    out, cur = [], None
+    for i, l in enumerate(lines):
+        m = re.fullmatch(term_re, l)
+        if m and i + 1 < len(lines) and re.match(r"\s+\S", lines[i + 1]) and (i == 0 or lines[i - 1].strip() == ""):
+            cur = (m, [])
+            out.append(cur)
+        elif cur is not None:
+            if l.strip() and not l.startswith(" "):
+                cur = None          # an unindented line ends the entry
+            else:
+                cur[1].append(l)
+    return out
+
+
+def help_entries():
+    """[(option name without --, [body lines])] of runner.HELP"""
+    tree = ast.parse(open(os.path.join(SRC, "runner.py")).read())
+    txt = None
+    for n in tree.body:
+        if isinstance(n, ast.Assign) and isinstance(n.targets[0], ast.Name) and n.targets[0].id == "HELP":
+            txt = const_str(n.value)
+    if txt is None:
+        raise Unsupported("HELP not found in runner.py")
+    out, cur = [], None
+    for l in txt.split("\n"):
+        m = re.fullmatch(r" {4}--(\[no-\])?([A-Za-z0-9][A-Za-z0-9_-]*)(=\S+)?", l)
+        if m:
+            cur = (m.group(2), [])
+            out.append(cur)
+        elif cur is not None:
+            if l.strip() and not l.startswith(" "):
+                cur = None
+            else:
+                cur[1].append(l)
+    return out
+
+
+def runner_rst_entries():
+    es = rst_entries(os.path.join(DOCS, "runner.rst"), r"``--(\[no-\])?([A-Za-z0-9][A-Za-z0-9_-]*)(=\S+)?``")
+    return [(m.group(2), body) for m, body in es]
+
+
+def first_paragraph(body):
+    out = []
+    for l in body:
+        if not l.strip():
+            if out:
+                break
+            continue
+        out.append(l.strip())
+    return " ".join(out)
+
+
+def header_kinds_in(text):
+    """the double-quoted lower-case words of the first paragraph"""
+    return re.findall(r'"([a-z][a-z-]*)"', text)
+
+
+def gen_doc_headers():
+    es = rst_entries(os.path.join(DOCS, "arguments.rst"), r"([a-z][a-z0-9_]*)")
+    d = [body for m, body in es if m.group(1) == "trusted_proxy_headers"]
+    h = [body for n, body in help_entries() if n == "trusted-proxy-headers"]
+    r = [body for n, body in runner_rst_entries() if n == "trusted-proxy-headers"]
+    if len(d) != 1 or len(h) != 1 or len(r) != 1:
+        raise Unsupported("trusted_proxy_headers is not documented exactly once in arguments.rst / HELP / runner.rst")
+    out = []
+    for name, body in (("docs_proxy_headers", d[0]), ("help_proxy_headers", h[0]), ("runner_rst_proxy_headers", r[0])):
+        ks = header_kinds_in(first_paragraph(body))
+        if not ks:
+            raise Unsupported("no header kinds found in the %s entry" % name)
+        out.append("(* header kinds named in the first paragraph of the trusted_proxy_headers entry: %s *)" % safe(" ".join(ks)))
+        out.append("Definition %s : list (list N) := %s." % (name, SL(ks)))
+    return out
+
+
+def dval_of_literal(x):
+    """a documented default as written -> Coq dval"""
+    x = x.strip()
+    if x == "None":
+        return "DNone"
+    if x in ("True", "False"):
+        return "DBool %s" % ("true" if x == "True" else "false")
+    if x == "[]":
+        return "DEmptyList"
+    if len(x) >= 2 and x[0] == x[-1] and x[0] in "'\"":
+        x = x[1:-1]
+    return "DStr %s" % S(x)
+
+
+def gen_class_defaults(cls):
+    """the class-level default of every adjustment of _params, as written"""
+    tree_params = [n for n in cls.body if isinstance(n, ast.Assign) and isinstance(n.targets[0], ast.Name) and n.targets[0].id == "_params"]
+    names = [const_str(e.elts[0]) for e in tree_params[0].value.elts]
+    rows = []
+    for n in names:
+        v = class_assign(cls, n)
+        if isinstance(v, ast.Call) and isinstance(v.func, ast.Name) and v.func.id in ("_str_marker", "_int_marker") and len(v.args) == 1:
+            v = v.args[0]
+        if isinstance(v, ast.Constant) and v.value is None:
+            d = "DNone"
+        elif isinstance(v, ast.Constant) and type(v.value) is bool:
+            d = "DBool %s" % ("true" if v.value else "false")
+        elif isinstance(v, ast.Constant) and type(v.value) is int:
+            d = "DInt (%d)%%Z" % v.value
+        elif isinstance(v, ast.Constant) and type(v.value) is str:
+            d = "DStr %s" % S(v.value)
+        elif isinstance(v, ast.List) and not v.elts:
+            d = "DEmptyList"
+        elif shape(ast.Expr(v)) == shape(ast.parse("set()").body[0]):
+            d = "DEmptySet"
+        elif n == "listen" and shape(ast.Expr(v)) == shape(ast.parse('[f"{host}:{port}"]').body[0]):
+            d = "DHostPort"
+        else:
+            raise Unsupported("class default of %s is not a literal the model knows" % n)
+        rows.append("(%s, %s)" % (S(n), d))
+    return ["(* class-level defaults of Adjustments, as written (0o600 = 384) *)",
+            "Definition class_defaults : list (list N * dval) :=\n  [%s]." % ";\n   ".join(rows)]
+
+
+CONDITIONAL = re.compile(r"is set, the default is")
+
+
+def defaults_in_text(text):
+    """documented defaults in one entry (whitespace-normalised text); conditional ones are skipped"""
+    text = CONDITIONAL.sub("is set, the conditional value is", text)
+    found = []
+    for m in re.finditer(r"Default: ``(.*?)``", text):                 # Default: ``X``  (rst)
+        found.append(m.group(1))
+    for m in re.finditer(r",\s*default ``(.*?)``", text):              # ..., default ``0.0.0.0`` (rst, inline)
+        found.append(m.group(1))
+    for m in re.finditer(r"[Dd]efault(?: is value)? is ``(.*?)``", text):   # The default is value is ``x``
+        found.append(m.group(1))
+    for m in re.finditer(r"[Dd]efault is ('[^']*')", text):            # default is '0.0.0.0'
+        found.append(m.group(1))
+    for m in re.finditer(r"[Dd]efault is (\d+|True|False)\b", text):   # Default is 1024 / Default is False
+        found.append(m.group(1))
+    for m in re.finditer(r"Default: ('[^']*'|\d+)(?=[\s.]|$)", text):  # Default: 1 / Default: '0'  (HELP)
+        found.append(m.group(1))
+    if re.search(r"Default is the empty string", text):
+        found.append("''")
+    if re.search(r"\bOn by default|active by default", text):
+        found.append("True")
+    if re.search(r"\bOff by default", text):
+        found.append("False")
+    return found
+
+
+def gen_doc_defaults():
+    out = []
+    es = rst_entries(os.path.join(DOCS, "arguments.rst"), r"([a-z][a-z0-9_]*)")
+    sources = [("docs_defaults", "docs/arguments.rst", [(m.group(1), body) for m, body in es]),
+               ("help_defaults", "runner.HELP", [(n.replace("-", "_"), body) for n, body in help_entries()]),
+               ("runner_rst_defaults", "docs/runner.rst", [(n.replace("-", "_"), body) for n, body in runner_rst_entries()])]
+    for coqname, what, entries in sources:
+        rows, seen = [], []
+        for name, body in entries:
+            text = " ".join(l.strip() for l in body if l.strip())
+            for lit in defaults_in_text(text):
+                if (name, lit) in seen:
+                    continue
+                seen.append((name, lit))
+                rows.append("(%s, %s)  (* %s: %s *)" % (S(name), dval_of_literal(lit), name, safe(lit)))
+        if not rows:
+            raise Unsupported("no documented defaults found in %s" % what)
+        body = ";\n   ".join(r.split("  (*")[0] for r in rows)
+        out.append("(* defaults stated in %s (name with underscores, the literal as written): %s *)" % (
+            what, safe("; ".join("%s=%s" % x for x in seen))))
+        out.append("Definition %s : list (list N * dval) :=\n  [%s]." % (coqname, body))
+    return out
+
+
 PRELUDE = """From Coq Require Import List NArith ZArith Bool.
 From WV Require Import Lib.PyBytes.
 Import ListNotations.
@@ -959,6 +1141,11 @@ Inductive cli_action :=
   | ActConst (v : list N)               (* kw[param] = v *)
   | ActValue.                           (* kw[param] = value *)
 Definition memstr (x : list N) (l : list (list N)) : bool := existsb (beqb x) l.
+(* a default value as written in the class body or in the documentation *)
+Inductive dval :=
+  | DNone | DBool (b : bool) | DInt (z : Z) | DStr (s : list N)
+  | DEmptyList | DEmptySet
+  | DHostPort.                           (* [f<dq>{host}:{port}<dq>] *)
 """
 
 
@@ -997,6 +1184,10 @@ def main(outpath):
     o.item("middleware_installed", gen_middleware)
     o.item("docs_args", gen_docs)
     o.item("help_opts", gen_help)
+    o.item("documented header kinds", gen_doc_headers)
+    if cls is not None:
+        o.item("class_defaults", lambda: gen_class_defaults(cls))
+    o.item("documented defaults", gen_doc_defaults)
     text = "\n".join(o.lines) + "\n"
     old = None
     if os.path.exists(outpath):
